@@ -77,6 +77,22 @@ def haversine_deg(lon0, lat0, lon, lat):
     return np.degrees(2 * np.arcsin(np.sqrt(np.clip(a, 0, 1))))
 
 
+_ZC = []
+
+
+def zc_numba(lat):
+    """`np.sin(np.deg2rad(lat))` compiled by numba, as inside fast_constant_lat_intersections"""
+    if not _ZC:
+        import numba
+
+        @numba.njit
+        def f(x):
+            return np.sin(np.deg2rad(x))
+
+        _ZC.append(f)
+    return float(_ZC[0](float(lat)))
+
+
 def build_source(case, ux):
     if "file" in case:
         return ux.open_grid(str(common.REPO / case["file"]))
@@ -243,16 +259,32 @@ def judge(ctx, case):
     n_node = int(g.n_node)
 
     if sel["kind"] == "lat":
-        zn = np.asarray(case["z"], dtype=float) if "z" in case else g.node_z.values
+        # the doubles the implementation compares: the grid's OWN node z (edge_node_z = node_z[edge_node_connectivity]) and
+        # z_constant = sin(deg2rad(lat)) as the jitted scan computes it (same expression compiled by numba here; the NumPy
+        # value must agree bit for bit, otherwise only the margin form is judged)
+        zn = np.asarray(g.node_z.values, dtype=float)
         Z = [(float(zn[a]), float(zn[b])) for a, b in EN]
-        c = float(np.sin(np.deg2rad(sel["lat"])))
+        c = zc_numba(float(sel["lat"]))
+        c_np = float(np.sin(np.deg2rad(float(sel["lat"]))))
+        zs = np.array(Z, dtype=float).ravel()
+        ties = int(np.sum(zs == c))
+        near = int(np.sum((zs != c) & (np.abs(zs - c) <= MARGIN)))
+        exact = (c == c_np) and near == 0
+        ctx.hit("lat:judged-exactly" if exact else "lat:judged-with-margin")
+        if exact and ties:
+            ctx.hit("lat:exact-tie(node on the parallel)")
         got_faces = [] if res is None else [int(x) for x in (res.uxgrid if is_da else res)._ds["subgrid_face_indices"].values]
         direct = [int(x) for x in np.atleast_1d(g.get_faces_at_constant_latitude(sel["lat"]))]
         for name, faces in (("cross_section", got_faces), ("get_faces_at_constant_latitude", direct)):
-            ok = d.ask("C09.latspec", enc_float(c), enc_float(MARGIN), enc_fpairs(Z), enc_rows(FE), enc_ints(N), enc_ints(faces))
+            if exact:
+                ok = d.ask("C09.latexact", enc_float(c), enc_fpairs(Z), enc_rows(FE), enc_ints(N), enc_ints(faces))
+            else:
+                ok = d.ask("C09.latspec", enc_float(c), enc_float(MARGIN), enc_fpairs(Z), enc_rows(FE), enc_ints(N), enc_ints(faces))
             if ok != "1":
-                fail(f"lat/{name}/faces", f"{name}(lat={sel['lat']}): the faces are not those with an edge whose end nodes lie strictly on "
-                     "opposite sides of the parallel", dict(faces=faces), None, ["crosssec_iff"])
+                fail(f"lat/{name}/faces" + ("/exact-tie" if exact and ties else ""),
+                     f"{name}(lat={sel['lat']}): the faces are not those with an edge whose end nodes lie strictly on "
+                     "opposite sides of the parallel" + (f" ({ties} edge end nodes lie exactly on it)" if ties else ""),
+                     dict(faces=faces, z_constant=c, ties=ties), None, ["crosssec_iff"])
                 return
         if sorted(direct) != sorted(got_faces):
             fail("lat/accessor-vs-method", "cross_section.constant_latitude and get_faces_at_constant_latitude select different faces",
@@ -263,6 +295,8 @@ def judge(ctx, case):
         mo.ints()
         mfaces = mo.ints()
         ctx.hit("lat:model-identical" if mfaces == direct else "lat:model-differs-inside-margin")
+        if exact and mfaces != direct:
+            ctx.mismatch("C09/lat-scan(model on the same doubles)", case, direct, mfaces)
         # thread counts (in-process)
         try:
             import numba
@@ -552,6 +586,85 @@ def random_case(ctx, m, ux, supplied=None, thorough_geo=False):
     return case
 
 
+def _rll(lats, lon0, dlon, nlon, wrap):
+    """regular latitude-longitude quads; `wrap`: a full ring of nlon cells"""
+    ncol = nlon if wrap else nlon + 1
+    lon = [((lon0 + i * dlon + 180.0) % 360.0) - 180.0 for _ in lats for i in range(ncol)]
+    lat = [float(la) for la in lats for _ in range(ncol)]
+    faces = []
+    for j in range(len(lats) - 1):
+        for i in range(nlon):
+            a, b = j * ncol + i, j * ncol + (i + 1) % ncol
+            faces.append([a, b, b + ncol, a + ncol])
+    return faces, lon, lat
+
+
+def _strip(lat0, h, lon0, d, k, crossing):
+    """triangles above and below the parallel `lat0`: with an EDGE on it and with only a CORNER on it, from above and from
+    below; optionally separate quads that really cross it"""
+    lon, lat, faces = [], [], []
+
+    def node(lo, la):
+        lon.append(((lo + 180.0) % 360.0) - 180.0)
+        lat.append(float(la))
+        return len(lon) - 1
+
+    eq = [node(lon0 + i * d, lat0) for i in range(k + 1)]
+    up = [node(lon0 + (i + 0.5) * d, lat0 + h) for i in range(k)]
+    dn = [node(lon0 + (i + 0.5) * d, lat0 - h) for i in range(k)]
+    for i in range(k):
+        faces.append([eq[i], eq[i + 1], up[i]])  # edge on the parallel, face above
+        faces.append([eq[i + 1], eq[i], dn[i]])  # edge on the parallel, face below
+        if i + 1 < k:
+            faces.append([up[i], eq[i + 1], up[i + 1]])  # corner on the parallel, face above
+            faces.append([dn[i + 1], eq[i + 1], dn[i]])  # corner on the parallel, face below
+    for q in range(crossing):
+        l0 = lon0 + (k + 2 + 2 * q) * d
+        a, b = node(l0, lat0 - h), node(l0 + d, lat0 - h)
+        c, e = node(l0 + d, lat0 + h), node(l0, lat0 + h)
+        faces.append([a, b, c, e])
+    return faces, lon, lat
+
+
+def exact_lat_cases(ctx):
+    """latitudes that hit nodes EXACTLY (sin(deg2rad(lat)) == node_z bit for bit is verified per case in `judge`): nodes
+    on the equator and on other parallels, faces touching the parallel by a corner / by an edge from above and from below,
+    regular lat-lon grids queried at their node rows (incl. the empty selection)"""
+    rng = ctx.rng
+    out = []
+
+    def add(faces, lon, lat, qlat, tag):
+        w = max(len(f) for f in faces)
+        table = [list(f) + [INT_FILL] * (w - len(f)) for f in faces]
+        for via in ("grid", "uxda"):
+            case = dict(mesh=dict(kind=tag, n_node=len(lon), n_face=len(faces)), table=table, lon=lon, lat=lat,
+                        history=[v for v in ("edge_node_z", "edge_face_connectivity", "node_z", "hole_edge_indices") if rng.random() < 0.4],
+                        sel=dict(kind="lat", lat=float(qlat), at_node=True), via=via, order=[], geo=[])
+            if via == "uxda":
+                case["data"] = dict(centre="face", lead=[2] if rng.random() < 0.5 else [], dtype="float")
+            out.append(case)
+
+    # regular lat-lon grids queried at node rows
+    row_sets = [[-30.0, 0.0, 30.0], [-60.0, -30.0, 0.0, 30.0, 60.0], [10.0, 22.5, 35.0, 47.5],
+                sorted(round(rng.uniform(-80, 80) * 4) / 4 for _ in range(4))]
+    for lats in row_sets[: ctx.n(3, 4)] if not ctx.thorough else row_sets:
+        if len(set(lats)) != len(lats):
+            continue
+        wrap = rng.random() < 0.4
+        nlon = rng.choice([4, 6]) if wrap else rng.randint(2, 4)
+        faces, lon, lat = _rll(lats, rng.choice([-170.0, -20.0, 100.0, 165.0]), 360.0 / nlon if wrap else 10.0, nlon, wrap)
+        for q in rng.sample(lats, min(len(lats), ctx.n(2, 4))):
+            add(faces, lon, lat, q, "rll%dx%d%s@row" % (nlon, len(lats) - 1, "ring" if wrap else ""))
+    # strips touching the parallel by edges and corners
+    for lat0 in [0.0, 0.0, 30.0, -45.0, 12.5, round(rng.uniform(-70, 70) * 4) / 4][: ctx.n(4, 6)]:
+        h = rng.choice([5.0, 7.5, 10.0])
+        crossing = rng.choice([0, 1, 2])
+        faces, lon, lat = _strip(lat0, h, rng.choice([-175.0, -40.0, 20.0, 150.0]), 10.0, rng.randint(2, 4), crossing)
+        add(faces, lon, lat, lat0, "strip@%g+cross%d" % (lat0, crossing))
+        add(faces, lon, lat, lat0 - h if rng.random() < 0.5 else lat0 + h, "strip@%g(outer row)" % lat0)
+    return out
+
+
 def mpas_cases(ctx):
     f = common.REPO / MPAS
     if not f.exists():
@@ -615,7 +728,9 @@ def run(ctx):
                 "history = none / one / random / all of 7 connectivity + 15 geometric variables materialised in random order; selection = "
                 "face / node / edge indices (scalar, single, all, permuted, unsorted, sorted; list / tuple / int32 / int64 array), bounding box "
                 "(40% antimeridian-spanning) / circle / k-nearest on nodes, face centres, edge centres, constant latitude (35% exactly a "
-                "node's latitude; 1/2/7/16 numba threads); through Grid or a UxDataArray (face / node / edge data, rank 1..3); distinct = "
+                "node's latitude, plus lat-lon grids queried at their node rows and triangle strips touching the parallel by an edge / "
+                "a corner from above and below: JUDGED EXACTLY whenever sin(deg2rad(lat)) as numba computes it and the grid's own node z "
+                "are compared as the same doubles and no other node lies within 1e-9; 1/2/7/16 numba threads); through Grid or a UxDataArray (face / node / edge data, rank 1..3); distinct = "
                 "distinct (table, history, selection, carrier)")
     ctx.assumptions = [
         "xarray's isel / attrs copying and NumPy's unique / fancy indexing are tied to the model only by this differential run",
@@ -631,6 +746,8 @@ def run(ctx):
                 continue
             for _ in range(ctx.n(7, 9)):
                 judge(ctx, random_case(ctx, m, ux, thorough_geo=ctx.thorough and ctx.rng.random() < 0.1))
+    for c in exact_lat_cases(ctx):
+        judge(ctx, c)
     for c in mpas_cases(ctx):
         judge(ctx, c)
     if ctx.thorough or ctx.escalate:
